@@ -201,18 +201,22 @@ Definition unwrap_chunk (n : node) : res chunk := node_to_chunk n.
 Definition ad_encode (a : ad) : bytes := encode (ad_to_node a).
 Definition chunk_encode (c : chunk) : bytes := encode (chunk_to_node c).
 
-(* values the encoder accepts and the decoder gives back *)
+(* values the encoder accepts and the decoder gives back: bytes < 256, strings and byte
+   strings at most MaxStr (the decoder refuses longer ones), links that cid.Cast accepts;
+   list lengths below 2^63 (always true of a Go slice) *)
 Definition link_ok (c : bytes) : bool := wf_bytes c && is_ok (cast c) && (blen c <? MaxStr).
 Definition str_ok (s : bytes) : bool := wf_bytes s && (blen s <=? MaxStr).
+Definition len_ok {A} (l : list A) : bool := nlen l <=? MaxInt.
 Definition wf_prov (p : provider) : bool :=
-  str_ok (p_id p) && forallb str_ok (p_addrs p) && str_ok (p_meta p) && str_ok (p_sig p).
+  str_ok (p_id p) && forallb str_ok (p_addrs p) && len_ok (p_addrs p) && str_ok (p_meta p) && str_ok (p_sig p).
+Definition wf_ext (x : extprov) : bool := forallb wf_prov (x_provs x) && len_ok (x_provs x).
 Definition wf_ad (a : ad) : bool :=
   match a_prev a with Some c => link_ok c | None => true end &&
-  str_ok (a_provider a) && forallb str_ok (a_addrs a) && str_ok (a_sig a) && link_ok (a_entries a) &&
+  str_ok (a_provider a) && forallb str_ok (a_addrs a) && len_ok (a_addrs a) && str_ok (a_sig a) && link_ok (a_entries a) &&
   str_ok (a_ctx a) && str_ok (a_meta a) &&
-  match a_ext a with Some x => forallb wf_prov (x_provs x) | None => true end.
+  match a_ext a with Some x => wf_ext x | None => true end.
 Definition wf_chunk (c : chunk) : bool :=
-  forallb str_ok (c_entries c) && match c_next c with Some l => link_ok l | None => true end.
+  forallb str_ok (c_entries c) && len_ok (c_entries c) && match c_next c with Some l => link_ok l | None => true end.
 
 (* ---------------------------------------------------------------- *)
 (* equality, case checkers                                            *)
@@ -254,14 +258,25 @@ Definition chunk_case_ok (c : chunk * bytes) : bool :=
   res_match chunk_eqb (n <- generic_load b ;; unwrap_chunk n) (Ok x).
 
 (* family dec: arbitrary bytes through the real decoders:
-   (input, generic decode: node or error, re-encoding of that node by the real encoder,
-    BytesToAdvertisement: value or error, BytesToEntryChunk: value or error) *)
-Definition dec_case_ok (c : bytes * res node * bytes * res ad * res chunk) : bool :=
-  let '(b, obs_node, reenc, obs_ad, obs_chunk) := c in
-  res_match node_eqb (decode b) obs_node &&
+   (input, did the generic decode succeed, the real re-encoding of the generic node when it
+    differs from the input (None = identical to the input), BytesToAdvertisement: value or
+    error, BytesToEntryChunk: value or error).  The generic node itself is compared through
+    its re-encoding: [encode] is injective up to map order (C13 proofs), so equal
+    re-encodings mean the model decoded the node the real decoder decoded.  A node holding
+    a float is not compared (float values are not modelled). *)
+Fixpoint has_float (n : node) : bool :=
+  match n with
+  | NFloat => true
+  | NList l => existsb has_float l
+  | NMap m => existsb (fun kv => has_float (snd kv)) m
+  | _ => false
+  end.
+
+Definition dec_case_ok (c : bytes * bool * option bytes * res ad * res chunk) : bool :=
+  let '(b, gen_ok, reenc, obs_ad, obs_chunk) := c in
   match decode b with
-  | Ok n => bytes_eqb (encode n) reenc
-  | _ => true
+  | Ok n => gen_ok && (has_float n || bytes_eqb (encode n) (match reenc with Some r => r | None => b end))
+  | _ => negb gen_ok
   end &&
   res_match ad_eqb (typed_load_ad b) obs_ad &&
   res_match chunk_eqb (typed_load_chunk b) obs_chunk.
